@@ -288,6 +288,16 @@ func refusals() []refusal {
 			}
 		}
 		out = append(out, refusal{"type differs: typed " + kn + " to, untyped from", mk(k.SpecificType()), mk("")})
+		// one side without an id: an empty id is not equivalent to any id
+		mkID := func(id string) func() vocab.Item {
+			return func() vocab.Item {
+				it := mk(k.SpecificType())()
+				reflect.ValueOf(it).Elem().FieldByName("ID").Set(reflect.ValueOf(vocab.IRI(id)))
+				return it
+			}
+		}
+		out = append(out, refusal{"id missing in to (" + kn + ")", mkID(""), mkID("https://example.com/a")},
+			refusal{"id missing in from (" + kn + ")", mkID("https://example.com/a"), mkID("")})
 	}
 	out = append(out,
 		refusal{"id host differs", obj("https://example.com/a", "Note"), obj("https://other.example/a", "Note")},
